@@ -259,6 +259,57 @@ def check_reuse(cfg):
     return msgs
 
 
+def check_interleaved(cfg):
+    """two generators of ONE solver object alive at the same time, their send histories interleaved in every
+    merge order of two short histories: the d/v arrays of each generator must equal the batch solution of its
+    own force history (finalize() belongs to the generator created last and is not used here)"""
+    msgs = []
+    hA = [("send", 1, "fA"), ("send", 2, "fB"), ("send", 1, "fB"), ("send", 2, "fA")]
+    hB = [("send", 1, "fB"), ("addon", -1, "gA"), ("send", 2, "fB")]
+    merges = []
+    for pos in itertools.combinations(range(len(hA) + len(hB)), len(hA)):
+        merges.append(["A" if i in pos else "B" for i in range(len(hA) + len(hB))])
+    for merge in merges[:: max(1, len(merges) // 12)]:
+        w1 = World(cfg)
+        w2 = World.__new__(World)
+        w2.cfg, w2.ts, w2.sys = cfg, w1.ts, w1.sys
+        n = w1.sys["n"]
+        w2.F0, w2.fs, w2.gs, _, _ = vectors(n)
+        w2.F0 = w2.F0 * -0.5
+        w2.ic = w1.ic
+        w2.gen, w2.d, w2.v = w1.ts.generator(NT, w2.F0, **w2.ic)
+        w2.model = np.zeros((n, NT))
+        w2.model[:, 0] = w2.F0
+        w2.cur = 0
+        w2.msgs = []
+        ia = ib = 0
+        for who in merge:
+            if who == "A":
+                ev = hA[ia]
+                ia += 1
+                w = w1
+            else:
+                ev = hB[ib]
+                ib += 1
+                w = w2
+            if ev[0] == "addon":
+                # add-on via the generator only (get_f2x bookkeeping is checked elsewhere)
+                w.gen.send((-1, w.gs[ev[2]].copy()))
+                w.model[:, w.cur] += w.gs[ev[2]]
+            else:
+                w.apply(ev)
+        for nm, w in (("first", w1), ("second", w2)):
+            ts2, _ = make_solver(cfg)
+            sol = ts2.tsolve(w.model[:, : w.cur + 1].copy(), **w.ic)
+            sd = max(1e-6, abs(sol.d).max())
+            sv = max(1e-6, abs(sol.v).max(), sd)
+            e = max(abs(w.d[:, : w.cur + 1] - sol.d).max() / sd, abs(w.v[:, : w.cur + 1] - sol.v).max() / sv)
+            if not e <= TOL:
+                msgs.append(("".join(merge), "two generators of one solver object with interleaved sends (%s): the %s generator's d/v differ from the batch solution of its own force history (rel err %.3g)" % ("".join(merge), nm, e)))
+                break
+    return msgs
+
+
 def shape_of(hist):
     """event-shape signature of a history: advance / redo / jump-back / add-on pattern"""
     out = []
@@ -314,6 +365,10 @@ def run_shard(sh):
     for pair, m in check_reuse(cfg):
         res.viol({"cfg": cfg, "reuse": pair}, m, kind="reuse")
     res.ev("%s/solver-reuse" % cfg["kind"], n=0)
+    if cfg["part"] not in ("rf", "rb"):
+        for merge, m in check_interleaved(cfg):
+            res.viol({"cfg": cfg, "interleaved": merge}, m, kind="interleaved")
+        res.ev("%s/interleaved-generators" % cfg["kind"], n=0)
     res.counters["configs"] += 1
     res.counters["max_depth_%d" % st["max_depth"]] += 1
     res.sigs["cfg/" + tag] += 1
@@ -323,6 +378,8 @@ def run_shard(sh):
 
 
 def replay(case):
+    if "interleaved" in case:
+        return [m for merge, m in check_interleaved(case["cfg"]) if merge == case["interleaved"]]
     if "reuse" in case:
         return [m for pair, m in check_reuse(case["cfg"]) if pair == case["reuse"]]
     w = build(case["cfg"], case["hist"])
